@@ -55,6 +55,39 @@ func ruleD3(c *an.Ctx, fns []*ssa.Function, cfg *an.OrderConfig) {
 				return
 			}
 			f := cl.Common().StaticCallee()
+			if f != nil && f.Pkg != nil && f.Pkg.Pkg.Path() == "sort" && (f.Name() == "Sort" || f.Name() == "Stable") && len(cl.Common().Args) == 1 {
+				// sort.Sort(x): the comparator is the Less method of x's type
+				mi, ok := cl.Common().Args[0].(*ssa.MakeInterface)
+				if !ok {
+					return
+				}
+				nt, ok := mi.X.Type().(*types.Named)
+				if !ok {
+					return
+				}
+				st, ok := nt.Underlying().(*types.Slice)
+				if !ok {
+					return
+				}
+				pt, ok := st.Elem().Underlying().(*types.Pointer)
+				if !ok {
+					return
+				}
+				n, ok := pt.Elem().(*types.Named)
+				if !ok || !keyTypes[n.Obj().Name()] {
+					return
+				}
+				sel := types.NewMethodSet(nt).Lookup(nt.Obj().Pkg(), "Less")
+				if sel == nil {
+					return
+				}
+				less := c.P.SSA.MethodValue(sel)
+				if less == nil || less.Blocks == nil {
+					return
+				}
+				sites = append(sites, sortSite{typ: n.Obj().Name(), fields: comparatorFields(less), fn: fn, call: in})
+				return
+			}
 			if f == nil || f.Pkg == nil || f.Pkg.Pkg.Path() != "sort" || (f.Name() != "Slice" && f.Name() != "SliceStable") || len(cl.Common().Args) != 2 {
 				return
 			}
@@ -83,6 +116,7 @@ func ruleD3(c *an.Ctx, fns []*ssa.Function, cfg *an.OrderConfig) {
 	}
 	c.Note("D3: sort sites over pointer keys collected from maps: %d", len(sites))
 	c.Floor("D3", "comparator sorts of pointer keys collected from a map", len(sites), 1)
+	d4seen := map[string]bool{}
 	for i, s := range sites {
 		var weakerThan *sortSite
 		for j := range sites {
@@ -99,6 +133,31 @@ func ruleD3(c *an.Ctx, fns []*ssa.Function, cfg *an.OrderConfig) {
 			if sub {
 				weakerThan = o
 			}
+		}
+		// D4: a source location is (file, line, column).  A comparator that falls back on the line
+		// number of two keys taken from a map believes the line separates them; two declarations
+		// in different files, or on one line, share it - the tie is then broken by map order.
+		for f := range s.fields {
+			if !strings.HasSuffix(f, "Loc.Line") {
+				continue
+			}
+			base := strings.TrimSuffix(f, "Line")
+			hasFile, hasCol := false, false
+			for g := range s.fields {
+				if strings.HasPrefix(g, base+"File") {
+					hasFile = true
+				}
+				if g == base+"Col" {
+					hasCol = true
+				}
+			}
+			d4key := "location-order-complete(" + s.typ + "." + f + ")@" + originName(s.fn)
+			if d4seen[d4key] {
+				continue
+			}
+			d4seen[d4key] = true
+			c.Check("D4", d4key, s.call.Pos(), hasFile && hasCol,
+				fmt.Sprintf("keys of type *%s taken from a map are ordered by the line number of their declaration without its file and column (file compared: %v, column compared: %v): two declarations on the same line number of different files, or on one line, tie and come out in map iteration order", s.typ, hasFile, hasCol))
 		}
 		key := "key-order(" + s.typ + " by " + fieldList(s.fields) + ")@" + an.FnName(s.fn)
 		if weakerThan != nil {
@@ -147,9 +206,75 @@ func comparatorFields(less *ssa.Function) map[string]bool {
 				return "", true
 			}
 			return pathOf(x.X, d+1)
+		case *ssa.Alloc:
+			// a local copy of a component (`li := calls[i].Node.Loc`): the path of what was copied
+			var src ssa.Value
+			n := 0
+			for _, r := range an.Referrers(x) {
+				if st, ok := r.(*ssa.Store); ok && st.Addr == ssa.Value(x) {
+					src = st.Val
+					n++
+				}
+			}
+			if n == 1 {
+				return pathOf(src, d+1)
+			}
 		}
 		return "", false
 	}
+	// one-line accessors (`func (s *SplitExp) Line() int { return s.Node.Loc.Line }`) called on an element
+	an.Instrs(less, func(in ssa.Instruction) {
+		cl, ok := in.(*ssa.Call)
+		if !ok {
+			return
+		}
+		h := cl.Call.StaticCallee()
+		if h == nil || h.Blocks == nil || len(h.Blocks) != 1 || h.Signature.Recv() == nil || len(cl.Call.Args) != 1 {
+			return
+		}
+		base, ok := pathOf(cl.Call.Args[0], 0)
+		if !ok {
+			return
+		}
+		var inner func(v ssa.Value, d int) (string, bool)
+		inner = func(v ssa.Value, d int) (string, bool) {
+			if d > 6 {
+				return "", false
+			}
+			switch x := v.(type) {
+			case *ssa.Parameter:
+				return "", true
+			case *ssa.FieldAddr:
+				_, f := an.FieldOfAddr(x)
+				if f == nil {
+					return "", false
+				}
+				b, ok := inner(x.X, d+1)
+				if !ok {
+					return "", false
+				}
+				if b == "" {
+					return f.Name(), true
+				}
+				return b + "." + f.Name(), true
+			case *ssa.UnOp:
+				return inner(x.X, d+1)
+			}
+			return "", false
+		}
+		an.Instrs(h, func(hin ssa.Instruction) {
+			ret, ok := hin.(*ssa.Return)
+			if !ok || len(ret.Results) != 1 {
+				return
+			}
+			if pth, ok := inner(ret.Results[0], 0); ok && pth != "" {
+				if base != "" {
+					pth = base + "." + pth
+				}
+				out[pth] = true
+			}
+		})
+	})
 	an.Instrs(less, func(in ssa.Instruction) {
 		fa, ok := in.(*ssa.FieldAddr)
 		if !ok {
@@ -166,4 +291,12 @@ func comparatorFields(less *ssa.Function) map[string]bool {
 		}
 	})
 	return out
+}
+
+// originName: the name of a function without the type arguments of a generic instantiation.
+func originName(fn *ssa.Function) string {
+	if o := fn.Origin(); o != nil {
+		return an.FnName(o)
+	}
+	return an.FnName(fn)
 }
